@@ -28,6 +28,7 @@ Editors == { [kind |-> "keep", lines |-> <<>>],
              [kind |-> "replace", lines |-> << <<97, 61, 48>> >>],                                        \* a=0
              [kind |-> "append", lines |-> << <<91, 120>> >>],                                            \* [x   (malformed)
              [kind |-> "comment", lines |-> << <<35, 113, 61, 56>> >>] }                                  \* #q=8 (a commented-out assignment)
+EditorsX == Editors \cup { [kind |-> "dropkey", lines |-> << <<100>> >>] }                                  \* delete the line that assigns to d
 NoLast == [cmd |-> "none"]
 Init == /\ \E S \in SUBSET DOMAIN Pool : fs = [p \in S |-> Pool[p]] /\ init = fs
         /\ acts = <<>> /\ last = NoLast
@@ -38,7 +39,7 @@ Revert == LET r == RevertResult(fs, Root, Name, Sfx) IN
   /\ fs' = r.fs /\ acts' = Append(acts, [cmd |-> "revert", mode |-> "-", ed |-> [kind |-> "keep", lines |-> <<>>], ok |-> TRUE])
   /\ last' = [cmd |-> "revert", before |-> fs]
 Next == /\ Len(acts) < MaxSteps /\ UNCHANGED init
-        /\ (Revert \/ \E mode \in {"dropin", "full"}, ed \in Editors : Edit(mode, ed))
+        /\ (Revert \/ \E mode \in {"dropin", "full"}, ed \in EditorsX : Edit(mode, ed))
 Spec == Init /\ [][Next]_vars
 
 Show(f) == ShowResult(f, Root, Name, Sfx)
@@ -52,7 +53,7 @@ EditTouchesOnlyTarget == last.cmd = "edit" =>
 \* an edit fails exactly when the tree cannot be read, the edited text cannot be parsed, or nothing is left in it (Dev_EditToNothingFails)
 EditFailsIff == last.cmd = "edit" =>
    (last.ok <=> /\ TreeOf(last.before, Root, Name, Sfx).rc \in {"ECONF_SUCCESS", "ECONF_NOFILE"} /\ last.ed.lines # << <<91, 120>> >>
-                /\ ~(TreeOf(last.before, Root, Name, Sfx).rc = "ECONF_NOFILE" /\ last.ed.kind \in {"keep", "comment"}))
+                /\ ~(TreeOf(last.before, Root, Name, Sfx).rc = "ECONF_NOFILE" /\ last.ed.kind \in {"keep", "comment", "dropkey"}))
 \* leaving the text as it is leaves the configuration as it is: the drop-in holds the whole merged configuration, files that
 \* are read after it override it with values it already has
 KeepKeepsConfiguration == (last.cmd = "edit" /\ last.ok /\ last.ed.kind = "keep") => Show(fs).triples = Show(last.before).triples
@@ -61,6 +62,13 @@ KeepKeepsConfiguration == (last.cmd = "edit" /\ last.ok /\ last.ed.kind = "keep"
 CommentedLineIsInert == (last.cmd = "edit" /\ last.ok /\ last.ed.kind = "comment") =>
    /\ Show(fs).triples = Show(last.before).triples
    /\ \A t \in Show(fs).triples : t[2] # <<113>> /\ t[2] # <<35, 113>>
+\* a key whose line is deleted in the editor: with --full it is gone (only the local main file, now overwritten, defined d) and
+\* everything else is as before; as a drop-in the edit changes NOTHING - the drop-in cannot take away what another file still defines
+KeyOfD(T) == {t \in T : t[2] = <<100>>}
+DroppedKey == (last.cmd = "edit" /\ last.ok /\ last.ed.kind = "dropkey") =>
+   IF last.mode = "full" THEN /\ Show(fs).triples \ KeyOfD(Show(fs).triples) = Show(last.before).triples \ KeyOfD(Show(last.before).triples)
+                              /\ (Target("dropin") \notin DOMAIN last.before => KeyOfD(Show(fs).triples) = {})   \* an earlier drop-in edit holds a copy of d (found by TLC)
+   ELSE Show(fs).triples = Show(last.before).triples
 \* a key appended in the editor is part of the configuration afterwards (nothing in these trees defines n or v)
 AppendedKeyIsShown == (last.cmd = "edit" /\ last.ok /\ last.ed.kind = "append") =>
    \E t \in Show(fs).triples : t[2] = SubSeq(last.ed.lines[1], 1, 1) /\ Len(t[3]) = Len(last.ed.lines)
